@@ -157,6 +157,53 @@ def observable {κ : Type} (s : Option (St κ)) : Option ((κ → Order) × Int)
 
 end FillOrders
 
+/-! ## Sort sites (table `Gen.Determinism.sortSites`)
+
+A sort whose comparison has TIES leaves (stable sort) or permutes (pdqsort) the tied elements according to the input
+order; if that order came out of a map, the output is nondeterministic. `x/liquidity/amm/util.go` `SortOrders` is
+`sort.SliceStable(orders, func(i, j) { return orders[i].HasPriority(orders[j]) })`; it orders the orders of one
+price / batch group before `DistributeOrderAmountToOrders` hands out the remainder one unit at a time in that order.
+
+`HasPriority` (x/liquidity/types/order.go `UserOrder.HasPriority`, `PoolOrder.HasPriority`, amm/order.go
+`BaseOrder.HasPriority`): larger amount first; on EQUAL amounts a user order before a pool order, two user orders by
+ascending `OrderID`, two pool orders by ascending `PoolID`. -/
+namespace SortOrders
+
+/-- everything `HasPriority` looks at -/
+structure Key where
+  amount : Int
+  isPool : Bool
+  /-- `OrderID` of a user order, `PoolID` of a pool order -/
+  id : Nat
+  deriving DecidableEq, Repr
+
+/-- `a.HasPriority(b)` -/
+def hasPriority (a b : Key) : Bool :=
+  if a.amount ≠ b.amount then decide (a.amount > b.amount)       -- BaseOrder.HasPriority: order.Amount.GT(other.GetAmount())
+  else match a.isPool, b.isPool with
+    | false, false => decide (a.id < b.id)                         -- UserOrder vs UserOrder: OrderID <
+    | false, true => true                                          -- UserOrder vs PoolOrder
+    | true, false => false                                         -- PoolOrder vs UserOrder
+    | true, true => decide (a.id < b.id)                           -- PoolOrder vs PoolOrder: PoolID <
+
+/-- the identity of an order inside one matching batch: its kind and id -/
+def ident (a : Key) : Bool × Nat := (a.isPool, a.id)
+
+/-- what every correct sort by `less` guarantees about its output, stable or not: no element is preceded by one it
+has strict priority over -/
+def notAfter (a b : Key) : Prop := hasPriority b a = false
+
+/-- executable instance: a STABLE sort (core `mergeSort` is stable), as `sort.SliceStable` -/
+def goSortStable (l : List Key) : List Key := l.mergeSort (fun a b => !hasPriority b a)
+
+/-- the comparison WITHOUT the tie-break (`BaseOrder.HasPriority` alone: amount only) — what an edit that drops the
+`switch` leaves -/
+def hasPriorityAmountOnly (a b : Key) : Bool := decide (a.amount > b.amount)
+
+def goSortStableAmountOnly (l : List Key) : List Key := l.mergeSort (fun a b => !hasPriorityAmountOnly b a)
+
+end SortOrders
+
 /-! ## The two loop shapes that are NOT order independent (what a mutation typically introduces)
 
 `appendInOrder` is the body "append the key to a slice" with NO sort afterwards: the slice itself is then the
